@@ -8,6 +8,7 @@
                                           | {"kind":"xlsx","f":id,"sheets":[…],"keep":[bool…]} | {"kind":"folder"}, …]}
            | {"fn":"write_csv" | "write_excel", "src": <src>, "n": <tables>}
     <src>  = {"path": id} | {"stream": id}
+    history also accepts "throwInGap:<k>" (a `next` that raises between two blocks, at the (k+1)-th gap it reaches)
   answer: {"wf": bool, "states": [{"pc": "notStarted"|"suspended"|"done", "k": delivered, "out": …,
             "fds": [file ids with a descriptor open], "open": [handles], "tb": [handles], "callerClosed": [ids],
             "bad": [handles]}, …]}   — one state per action
@@ -51,6 +52,8 @@ def progOfJson (j : Json) : Except String Trace := do
     pure (loadFiles Gen.withFrames fs)
   | "write_csv" => pure (writeCsv Gen.withFrames (← srcOfJson (← j.getObjVal? "src")) (← getNat j "n"))
   | "write_excel" => pure (writeExcel Gen.withFrames (← srcOfJson (← j.getObjVal? "src")) (← getNat j "n"))
+  | "write_excel_xlsxwriter" =>
+    pure (writeExcelXlsxwriter (← getBool j "opensAtCtor") (← srcOfJson (← j.getObjVal? "src")) (← getNat j "n"))
   | _ => throw s!"unknown resource fn {fn}"
 
 def actionOfJson (j : Json) : Except String Action := do
@@ -61,7 +64,12 @@ def actionOfJson (j : Json) : Except String Action := do
   | "drop" => pure .drop
   | "throw" => pure .throw
   | "releaseExc" => pure .releaseExc
-  | a => throw s!"unknown action {a}"
+  | a =>
+    if a.startsWith "throwInGap:" then
+      match (a.drop 11).toNat? with
+      | some k => pure (.throwInGap k)
+      | none => throw s!"bad gap index in {a}"
+    else throw s!"unknown action {a}"
 
 def handleToJson : Handle → Json
   | .lib (.path f) k => Json.str s!"p{f}#{k}"
@@ -81,7 +89,8 @@ def stToJson (s : St) : Json :=
 
 def frameToJson : Frame → Json
   | .withs cs => arr (cs.map fun c => Json.str (match c with
-      | .openIfPath => "openIfPath" | .closingWorkbook => "closingWorkbook" | .closingRows => "closingRows"))
+      | .openIfPath => "openIfPath" | .closingWorkbook => "closingWorkbook" | .closingRows => "closingRows"
+      | .openPath => "openPath"))
   | .bareOpen => Json.str "bareOpen"
   | .explicitClose => Json.str "explicitClose"
   | .unknown => Json.str "unknown"
@@ -94,8 +103,10 @@ def handleResource (op : String) (j : Json) : Option (Except String Json) :=
     let hs ← (← getArr j "history").mapM actionOfJson
     pure (Json.mkObj [("wf", Json.bool (wf t)), ("states", arr ((runStates t hs).map stToJson))])
   | "resource_frames" => some do
-    pure (Json.mkObj (["read_csv", "read_sheets", "read_excel", "write_csv", "write_excel_openpyxl"].map
-      fun fn => (fn, frameToJson (frameOf Gen.withFrames fn))))
+    pure (Json.mkObj ((["read_csv", "read_sheets", "read_excel", "write_csv", "write_excel_xlsxwriter"].map
+      fun fn => (fn, frameToJson (frameOf Gen.withFrames fn))) ++
+      [("write_excel_openpyxl", Json.str (match saveShape Gen.withFrames with
+        | .buffered => "buffered" | .direct => "direct" | .other => "other"))]))
   | _ => none
 
 end Drv
